@@ -242,6 +242,15 @@ def run (r : Roll σ) (p : Params) : Nat → St → List Bytes
     | (none, _) => []
     | (some c, st') => c :: run r p fuel st'
 
+/-! ### Parameter validation (`check_rabin_params`, called by `ChunkIter::new` for every file) -/
+
+/-- `usize::is_power_of_two` -/
+def isPow2 (n : Nat) : Bool := n != 0 && (n &&& (n - 1)) == 0
+
+/-- `check_rabin_params(chunk_size, chunk_min_size, chunk_max_size)`: `true` = `Ok(())`, `false` = `Err(Unsupported)`. -/
+def checkRabinParams (avg mn mx : Nat) : Bool :=
+  isPow2 avg && mn != 0 && !(mn > avg) && !(mx < avg)
+
 /-! ### Declarative specification -/
 
 /-- How many more bytes the hash loop consumes from `bs` when it starts at length `len`, state `h`. -/
